@@ -320,6 +320,43 @@ def constrain_rules(ck, F, rule):
         ck.require(okl, rule, f"constrain-stores-arg:{role}", "constrain must store the given linear combination unchanged")
 
 
+def commit_rules(ck, F, rule="R16.7"):
+    """Committed-variable handles: on a system holding m commitments, `commit` of either role returns `Committed(m)`
+    and the system then holds m + 1 -- unconditionally (no early exit, no dependence on the committed value), so the
+    j-th call yields handle j on both sides whatever is committed (added after seeded change C16i)."""
+    from .. import schedule as SC
+
+    m = isym("m")
+    for role, path in (("prover", H.P_PRV + "commit"), ("verifier", H.P_VER + "commit")):
+        ck.fn(path)
+        try:
+            nc = SC.run_new_commit(F, role)
+        except Unanalysable as u:
+            ck.fail(rule, f"commit:{role}", f"unanalysable: {u.msg}", u.where, kind="unanalysable")
+            continue
+        I, obj, ret = nc["I"], nc["obj"], nc["I"].deref(nc["ret"])
+        var = ret.items[1] if role == "prover" and isinstance(ret, Tup) and len(ret.items) == 2 else ret
+        var = I.deref(var)
+        okv = isinstance(var, Enum) and var.variant == "Committed" and len(var.payload) == 1 and isinstance(I.deref(var.payload[0]), IntV) and eq(I.deref(var.payload[0]).e, m)
+        store = I.deref(obj.fields["secrets"]).fields["v"] if role == "prover" else obj.fields["V"]
+        store = I.deref(store)
+        okn = isinstance(store, Vec) and eq(store.length(), m + 1)
+        exits = [it for it in AN_flat(nc["commit"]) if it[0] in ("guard", "alt")]
+        ck.require(okv and okn and not exits, rule, f"commit:{role}", f"commit on a system with m commitments must return Committed(m) and leave m + 1 commitments, on every path; returned {var!r}, commitments afterwards {store.length() if isinstance(store, Vec) else store!r}, conditional paths {[str(x[1]) for x in exits]}", FX.short(F.fn(path)["sp"]))
+
+
+def AN_flat(items):
+    out = []
+    for it in items:
+        out.append(it)
+        if it[0] == "star":
+            out.extend(AN_flat(it[1]))
+        elif it[0] == "alt":
+            out.extend(AN_flat(it[2]))
+            out.extend(AN_flat(it[3]))
+    return out
+
+
 def body(ck, F, cfg):
     _CUR_F[0] = F
     if _TIER == "thorough" and cfg == "default":
@@ -420,6 +457,7 @@ def body(ck, F, cfg):
     rcs = [i for i in F.items["impls"] if (i["trait"] or "").endswith("RandomizedConstraintSystem")]
     selfs = sorted(i["self_ty"].split("<")[0] for i in rcs)
     ck.require(selfs == ["r1cs::prover::RandomizingProver", "r1cs::verifier::RandomizingVerifier"], "R16.6", "challenge-only-in-randomized-phase", f"challenge_scalar must be available on the randomizing wrappers only; impls for {selfs}")
+    commit_rules(ck, F)
     ck.floor("method transitions", len([o for o in ck.obligations if o[0] == "R16.1"]), 20)
     ck.floor("delegations", n_del, 12)
 
@@ -433,7 +471,7 @@ def run(tier):
         "transition summary (returned variable handles as terms in c and p, count delta, new pending, constraints added, error exits). Prover and verifier summaries must be identical "
         "and equal to the reference transitions; the prover's three wire vectors move in lock-step; a missing assignment fails before any state change; the phase switch clears the open gate "
         "before the first callback; the randomizing wrappers delegate 1:1.",
-        rule_text="R16.1 transition summaries (finite case analysis on the pending tag); R16.2 lock-step; R16.3 half-open gate; R16.4 phase switch; R16.5 error before state; R16.6 delegation",
+        rule_text="R16.1 transition summaries (finite case analysis on the pending tag); R16.2 lock-step; R16.3 half-open gate; R16.4 phase switch; R16.5 error before state; R16.6 delegation; R16.7 committed-variable handles (commit returns Committed(m) and stores exactly one more commitment, on every path)",
         not_decided=[],
         assumptions=["call sequences are compositions of these transitions (the API exposes nothing else: fields private)"],
     )
